@@ -1,4 +1,26 @@
-(* C20 placeholder (Spec/Fs.v theorems follow in a later commit) *)
-From Coq Require Import List.
-Theorem C20_placeholder : forall (A : Type) (l1 l2 : list A), length (l1 ++ l2) = length l1 + length l2.
-Proof. intros; apply app_length. Qed.
+(* C20 - CLI runs leave no trace and do not interfere with each other.
+   C20_cleanup: on every exit path of the temp-file state machine (both channels, every input class,
+   engine success or failure) the names created are removed again and only private names are created.
+   C20_commute: for ANY number of processes and ANY interleaving of their file-system operations, if
+   every process works on names it owns (freshness of mkstemp / mkdtemp / token_hex names - the stated
+   assumption), each process observes exactly what it observes when it runs alone. *)
+From Coq Require Import List Bool Arith.
+Require Import SP.Model.Cli SP.Spec.Fs SP.Proofs.CliProofs.
+Import ListNotations.
+
+Theorem C20_cleanup : forall ch inp ok, apply_ops (trace ch inp ok) [] = [].
+Proof. exact cleanup. Qed.
+Print Assumptions C20_cleanup.
+
+Theorem C20_private_names : forall ch inp ok n, In (Create n) (trace ch inp ok) -> n <= 2.
+Proof. exact only_private_names. Qed.
+
+Theorem C20_commute : forall owner sched who f, owned owner sched ->
+  run f sched who = run f (project sched who) who.
+Proof. exact interleaving_invisible. Qed.
+Print Assumptions C20_commute.
+
+(* non-vacuity: two processes interleaved, process 1 reads back what it wrote although 2 writes in between *)
+Example C20_example :
+  run empty [(1, Wr 10 5); (2, Wr 20 7); (1, Rd 10); (2, Rm 20); (2, Rd 20); (1, Rm 10); (1, Rd 10)] 1 = [Some 5; None].
+Proof. reflexivity. Qed.
